@@ -38,6 +38,22 @@ def signature(tokens, ref, got):
     for i, k in enumerate(kinds):
         if k == 'FUNCTION' and i + 1 < len(kinds) and kinds[i + 1] == 'LPAREN' and (i == 0 or kinds[i - 1] in ('SEMI', 'LBRACE', 'RBRACE', 'RPAREN', 'ELSE', 'DO', 'COLON')):
             return 'statement starting with an anonymous function'
+    # the same production (member_expr_nobf -> function_expr) with a name: at the start of a statement `function f(){}` is a
+    # declaration in ES5, so a `.`, `(` or `[` directly behind its body cannot follow
+    for i, k in enumerate(kinds):
+        if k == 'FUNCTION' and i + 1 < len(kinds) and kinds[i + 1] == 'ID' and (i == 0 or kinds[i - 1] in ('SEMI', 'LBRACE', 'RBRACE', 'RPAREN', 'ELSE', 'DO', 'COLON')):
+            depth, j, seen = 0, i, False
+            while j < len(kinds):
+                if kinds[j] == 'LBRACE':
+                    depth += 1
+                    seen = True
+                elif kinds[j] == 'RBRACE':
+                    depth -= 1
+                    if seen and depth == 0:
+                        break
+                j += 1
+            if j + 1 < len(kinds) and kinds[j + 1] in ('PERIOD', 'LPAREN', 'LBRACKET'):
+                return 'statement starting with a named function that is accessed or called'
     return 'other'
 
 
